@@ -114,7 +114,9 @@ def bstep (m : BMon) (ts : List String) : BMon × String :=
     | some calls =>
       if ret == "hang" then (m, "reject hang BreadthFirst did not return") else
       if ret == "panic" then (m, "reject panic BreadthFirst panicked") else
-      if !settled then (m, "reject goroutine-leak goroutines left behind after return") else
+      if !settled then
+        let site := (out.find? (·.startsWith "leak@")).getD "leak@?"
+        (m, s!"reject goroutine-leak a goroutine started by BreadthFirst is still running 10 s after it returned on a live caller context ({site})") else
       match callsOk m.parents calls with
       | .reject c d => (m, s!"reject {c} {d}")
       | .ok =>
